@@ -1,15 +1,16 @@
 #!/usr/bin/env python3
 """merge evidence parts /verif/evidence/<id>.part.<n>.json into /verif/evidence/<id>.json"""
 import json, sys, glob, os
+W = os.environ.get("VERIF_WORK", "/verif")
 pid, tier, final = sys.argv[1], sys.argv[2], int(sys.argv[3])
 parts = []
-for p in sorted(glob.glob(f"/verif/evidence/{pid}.part.*.json")):
+for p in sorted(glob.glob(f"{W}/evidence/{pid}.part.*.json")):
     try:
         parts.append(json.load(open(p)))
     except Exception:
         pass
     os.remove(p)
-out = f"/verif/evidence/{pid}.json"
+out = f"{W}/evidence/{pid}.json"
 if not parts:
     sys.exit(0)
 if len(parts) == 1:
